@@ -20,7 +20,7 @@ res = {"seed": sid, "repo_head": sh("git -C /repo rev-parse --short HEAD").stdou
 try:
     env = dict(os.environ, PYTHONPATH=wt)
     TESTS = {"C01": "modulators", "C02": "modulators", "C03": "channels", "C04": "mimo", "C05": "simulations", "C06": "simulations",
-             "C07": "simulations", "C08": "channels", "C10": "ia", "C11": "channels", "C12": "comm", "C13": "channels", "C14": "channels",
+             "C07": "simulations", "C08": "channels", "C09": "comm", "C10": "ia", "C11": "channels", "C12": "comm", "C13": "channels", "C14": "channels",
              "C15": "modulators", "C16": "modulators", "C17": "simulations", "C18": "reference_signals", "C19": "cell", "C20": "util"}
     tmod = f"tests/{TESTS[meta['property']]}_package_test.py"
     def run_tests():
